@@ -362,13 +362,16 @@ pub struct Model {
     /// amd64 only: every general-purpose register of the exception context other than rsp / rip holds
     /// this value (a register file crowded around one address)
     pub gpr_fill: Option<u64>,
+    /// thread 0 (x86 / amd64 / arm64, single-thread models only): its stack holds a frame-pointer chain of this
+    /// many frame records `[caller's frame pointer][return address]`, return addresses in the application module
+    pub deep: Option<usize>,
 }
 pub const HEADER_TIME: u64 = 1262805309; // fixed by minidump-synth
 pub const STACK_BASE: u64 = 0x7000_0000;
 
 impl Model {
     pub fn new(cpu: CpuK, platform_id: u32) -> Model {
-        Model { cpu, platform_id, threads: vec![], thread_names: vec![], exc: None, bp: None, modules: vec![], unloaded: vec![], maps: MapsM::None, misc: None, status: None, lsb: None, code: None, syms: vec![], gpr_fill: None }
+        Model { cpu, platform_id, threads: vec![], thread_names: vec![], exc: None, bp: None, modules: vec![], unloaded: vec![], maps: MapsM::None, misc: None, status: None, lsb: None, code: None, syms: vec![], gpr_fill: None, deep: None }
     }
     pub fn os(&self) -> OsK {
         os_of(self.platform_id)
@@ -447,8 +450,22 @@ pub fn build(m: &Model) -> Vec<u8> {
     };
     d = d.add_system_info(synth::SystemInfo::new(e).set_processor_architecture(m.cpu.arch()).set_platform_id(m.platform_id));
     for (i, t) in m.threads.iter().enumerate() {
-        let stack = synth::Memory::with_section(Section::with_endian(e).append_repeated(0, 64), STACK_BASE + 0x1000 * i as u64);
-        let cb = if t.ctx_ok { m.cpu.context(t.ip, t.sp) } else { None }.unwrap_or_else(|| vec![0xCD; 24]);
+        let base = STACK_BASE + 0x1000 * i as u64;
+        let (stack, cb) = match (i, m.deep) {
+            (0, Some(n)) => {
+                assert!(m.threads.len() == 1, "procgen: deep stacks are for single-thread models");
+                let w: u64 = if m.cpu.bits() == Some(32) { 4 } else { 8 };
+                let mut sec = Section::with_endian(e);
+                for k in 0..n as u64 {
+                    let next = if k + 1 < n as u64 { base + 2 * w * (k + 1) } else { 0 };
+                    let ra = APP_BASE + 0x100 + (k % 0x800) * 8;
+                    sec = if w == 4 { sec.D32(next as u32).D32(ra as u32) } else { sec.D64(next).D64(ra) };
+                }
+                sec = sec.append_repeated(0, 4 * w as usize);
+                (synth::Memory::with_section(sec, base), context_with_fp(m.cpu, t.ip, base, base))
+            }
+            _ => (synth::Memory::with_section(Section::with_endian(e).append_repeated(0, 64), base), if t.ctx_ok { m.cpu.context(t.ip, t.sp) } else { None }.unwrap_or_else(|| vec![0xCD; 24])),
+        };
         let ctx = bytes_section(&cb);
         let th = synth::Thread::new(e, t.tid, &stack, &ctx);
         d = d.add_thread(th).add_memory(stack).add(ctx);
@@ -957,6 +974,26 @@ pub fn gen_access_kinds(_tier: Tier) -> Gen {
         m
     };
     Gen { name: "access-kinds", len, model: Arc::new(model) }
+}
+
+/// Deep recursion: one thread whose stack is a frame-pointer chain of N records, N around and far past 1024, on
+/// x86 / amd64 / arm64, Linux and Windows.
+pub fn gen_deep_stacks(_tier: Tier) -> Gen {
+    use md::PlatformId as P;
+    const NS: [usize; 6] = [2, 1023, 1024, 1025, 1100, 3000];
+    let radices = vec![NS.len() as u64, 3, 2];
+    let len = crate::core::product(&radices);
+    let model = move |idx: u64| {
+        let d = crate::core::unrank(idx, &radices);
+        let cpu = [CpuK::X86, CpuK::Amd64, CpuK::Arm64][d[1] as usize];
+        let mut m = Model::new(cpu, [P::Linux as u32, P::VER_PLATFORM_WIN32_NT as u32][d[2] as usize]);
+        add_threads(&mut m, &[1], 0);
+        m.threads[0].ip = APP_BASE + 0x40;
+        m.modules.push(app_module());
+        m.deep = Some(NS[d[0] as usize]);
+        m
+    };
+    Gen { name: "deep-stacks", len, model: Arc::new(model) }
 }
 
 pub const TID_PATTERNS: [&[u32]; 7] = [&[], &[1], &[1, 2], &[2, 2], &[1, 2, 7], &[5, 1, 5], &[1, 2, 2, 7]];
